@@ -45,6 +45,18 @@ def check(ctx) -> None:
     ctx.rule("C15.mutators", "MUST-PASS: every TestCase method that changes _statements reaches `_code_cache = None` and `_rebuild_registry()` / `_register()` on every path to a normal exit", floor=7)
     ctx.rule("C15.read-cache", "a statement's cached read set is copied only to a statement built with the same node object", floor=1)
     ctx.rule("C15.names", "every Statement built inside TestCase binds next_var_name(), the binding of the statement it is rebuilt from, or nothing", floor=3)
+    ctx.rule("C15.bound-before-use", "WHO-MAY: the test factory picks existing variables for a statement at a position only through the position-bounded scan (_find_variable_of_type); the whole-test-case type registry is not consulted there", floor=1)
+    tf_ = repo.module("pynguin.testcase.testfactory")
+    fv_ = tf_.functions.get("TestFactory._find_variable_of_type")
+    if fv_ is None:
+        raise AnalysisError("anchor vanished: TestFactory._find_variable_of_type")
+    ctx.analysed(fv_)
+    bounded_ = any(isinstance(n_, ast.If) and re.fullmatch(r"idx >= position", norm(n_.test)) and any(isinstance(b_, ast.Break) for b_ in n_.body) for n_ in own_nodes(fv_))
+    ctx.check("C15.bound-before-use", fv_, bounded_, "_find_variable_of_type no longer stops its scan at `position`: a statement may be given an operand that is bound later in the test case (NameError when the test runs)", what="_find_variable_of_type scans statements before `position` only", stmt="[position bound]")
+    for qn_, fn_ in tf_.functions.items():
+        for c_ in own_nodes(fn_):
+            if isinstance(c_, ast.Call) and isinstance(c_.func, ast.Attribute) and c_.func.attr == "variables_of_type" or (isinstance(c_, ast.Attribute) and c_.attr == "_type_registry"):
+                ctx.fail("C15.bound-before-use", c_, f"{qn_} looks candidates up in the type registry of the whole test case (`{norm(c_)[:60]}`): it also holds variables that are bound after the position the statement is built for, so a statement can read a variable before it is defined", stmt=f"[{qn_}] registry lookup")
     ctx.rule("C15.length", "crossover installs the offspring only under `<finished offspring>.size() < chromosome_length` read after its last change; insertion loops test the size in their loop condition", floor=3)
 
     # ------------------------------------------------------------------ C15.writers
